@@ -18,14 +18,16 @@ LEVEL_TEXT = (
 )
 LEVEL_NOTE = "Trusts msdparser.parse_msd as tokenizer, the dictionary model (vmon/ref/dictmodel.py) and the syntactic gap guard (values in msdparser's escaping gaps are repaired out of the domain and probed as known findings)."
 RULE = (
+    "enum: every string of length <= 4 (quick) / <= 5 (thorough) over {#, :, ;, backslash, /, LF, CR, a} as a value, as a value under the empty key, as an ATTACKS value, as chart description, chart notes and extra component - all that the gap guard lets through must round-trip (this is the runtime validation of the guard). "
     "case = start object + list of edit operations (set/del by key and attribute, move_to_end, pop, update, chart "
     "append/insert/pop/remove/reverse/assign/replace/swap, chart field edits by attribute and key, extradata, str() "
     "mid-history); values from the hostile alphabet, repaired out of the msdparser gaps at the end of the history. "
     "Non-trivial when the final simfile has a chart or a value containing an MSD metacharacter or line break; "
     "distinct by canonical JSON of the history."
 )
+EXHAUSTIVE_PART = "all strings of length <= 4 (quick, 4681) / <= 5 (thorough, 37449) over 8 symbols in 6 placements"
 ASSUMPTIONS = ["msdparser.parse_msd tokenizes correctly", "values inside msdparser's escaping gaps are excluded by the property"]
-MONITORS = ["model_equality", "roundtrip", "restringify", "loads_detects_sm", "tokenizer_structure", "serialize_file"]
+MONITORS = ["enum_roundtrip", "model_equality", "roundtrip", "restringify", "loads_detects_sm", "tokenizer_structure", "serialize_file"]
 REQUIRED = ["key_only", "multi_value_with_colons", "value_has_colon", "value_has_semicolon", "value_has_backslash",
             "value_has_dslash", "value_has_lf", "value_has_crlf", "extradata", "charts_reordered", "crosses_4096",
             "backslash_without_other_meta", "str_mid_history_then_extradata_edit", "corpus_start"]
@@ -40,7 +42,27 @@ def anchors():
             "SMChart._from_msd": SMChart._from_msd, "SMChart.__setitem__": SMChart.__setitem__}
 
 
+ENUM_ALPHABET = ["#", ":", ";", "\\", "/", "\n", "\r", "a"]
+
+
+def enum_string(index):
+    """index -> string over ENUM_ALPHABET (bijective base-8 numeration: '', then all of length 1, 2, ...)."""
+    out = []
+    while index > 0:
+        index -= 1
+        out.append(ENUM_ALPHABET[index % 8])
+        index //= 8
+    return "".join(reversed(out))
+
+
 def cases(ctx):
+    # every string of length <= 4 (quick) / <= 5 (thorough) over 8 symbols, in five positions of an SM simfile
+    total = sum(8 ** k for k in range(0, (4 if ctx.tier == "quick" else 5) + 1))
+    block = 512
+    for bi, n0 in enumerate(range(0, total, block)):
+        if ctx.mine(bi):
+            yield {"kind": "enum", "n0": n0, "n1": min(total, n0 + block)}
+    ctx.exhaustive = True
     n = ctx.split(2500 if ctx.tier == "quick" else 16 * 25000)
     for i in range(n):
         case, repaired = E.gen_history(ctx.rng, KIND, f"v{ctx.shard}.{i}")
@@ -100,11 +122,57 @@ def run_history(ctx, case, kind):
     return real, model
 
 
+def check_enum(ctx, case):
+    """Exhaustive short values: whatever the guard lets through must survive the round trip."""
+    from simfile.sm import SMChart, SMSimfile
+
+    ctx.begin(case, nontrivial=False)
+    ctx.evaluations -= 1
+    for n in range(case["n0"], case["n1"]):
+        v = enum_string(n)
+        ctx.evaluations += 1
+        ctx.digests.add(hash(("enum", n)) & 0xFFFFFFFFFFFFFFFF)
+        placements = [("value", [("TITLE", v)], None), ("second-value", [("A", "1"), ("", v)], None),
+                      ("multi-value", [("ATTACKS", v)], None)]
+        if v == v.strip():
+            placements.append(("chart-description", [], ["dance-single", v, "Hard", "1", "0,0", "0000"]))
+            placements.append(("chart-notes", [], ["dance-single", "", "Hard", "1", "0,0", v]))
+        placements.append(("chart-extradata", [], ["dance-single", "", "Hard", "1", "0,0", "0000", v]))
+        for label, items, chart in placements:
+            comps = [M.param_components(k, x) for k, x in items]
+            if chart is not None:
+                comps.append(M.smchart_components(chart[:6], chart[6:]))
+            if any(V.in_gap(c) for c in comps):
+                ctx.skip("enumerated value inside the msdparser gap guard")
+                continue
+            ctx.mon("enum_roundtrip")
+            s = SMSimfile(string="")
+            for k, x in items:
+                s[k] = x
+            if chart is not None:
+                s.charts.append(SMChart.from_msd(chart))
+            text = str(s)
+            try:
+                r = SMSimfile(string=text)
+                ok = list(r.items()) == items and len(r.charts) == len(s.charts) and str(r) == text
+                if ok and chart is not None:
+                    c = r.charts[0]
+                    ok = [c.stepstype, c.description, c.difficulty, c.meter, c.radarvalues, c.notes] == chart[:6] and list(c.extradata or []) == chart[6:]
+            except Exception as e:
+                ok = False
+                r = repr(e)
+            if not ok:
+                ctx.violation(f"enum:{label}:round-trip-fails-outside-the-guard", {"value": v, "placement": label, "text": text, "reparsed": repr(r)[:300]},
+                              case={"kind": "enum", "n0": n, "n1": n + 1})
+
+
 def check(ctx, case):
     import simfile
     from msdparser import parse_msd
     from simfile.sm import SMSimfile
 
+    if case["kind"] == "enum":
+        return check_enum(ctx, case)
     res = run_history(ctx, case, KIND)
     if res is None:
         ctx.begin(case)
